@@ -891,6 +891,11 @@ def match_known(pid, v, kf):
                 if d is not None and 0 < d <= f['dist1_max'] and not tags.get('err'):
                     return f['what']
                 continue
+            if 'neg_exp_base_below' in f:     # x^(-n) for |x| < 1: Ok but inaccurate
+                a, b = tags.get('arg'), tags.get('arg2')
+                if a is not None and b is not None and b < 0 and abs(a) < f['neg_exp_base_below'] and not tags.get('err'):
+                    return f['what']
+                continue
             if 'ref_range' in f:          # results in a band of magnitudes, reported as Err
                 m = tags.get('ref_mag')
                 if m is not None and f['ref_range'][0] <= m <= f['ref_range'][1] and tags.get('err'):
@@ -2408,6 +2413,11 @@ def run_C10(tier, rng, stats):
         for a in [PD(t) for t in ['2', '10', '0.5', '1.5', '1.0000001', '79228162514264337593543950335', '3', '7', '0.1', '100']]:
             for b in [PD(t) for t in ['2', '0.5', '3', '10', '95.5', '28', '-2', '0.1', '1.0000001', '64', '1.5']]:
                 c = case('decimal', 'eval', None, f + '(' + dl(a) + ',' + dl(b) + ')'); dcs.append(c); dmeta[c] = (f, (a, b))
+    # negative integer exponents on bases below 1 (rust_decimal computes 1 / x^n: the intermediate loses its digits)
+    for a in [PD(t) for t in ['0.3', '0.5', '0.25', '0.9', '0.7']]:
+        for b in [PD(t) for t in ['-10', '-20', '-30', '-40', '-90']]:
+            c = case('decimal', 'eval', None, 'pow(' + dl(a) + ',' + dl(b) + ')'); dcs.append(c); dmeta[c] = ('pow', (a, b))
+            c = case('decimal', 'eval', None, dl(a) + '^' + dl(b)); dcs.append(c); dmeta[c] = ('pow', (a, b))
     dcases, douts, dmodel = run_streams(dcs, stats)
     merge(res, std_judge('C10', dcases, douts, dmodel))
     dn = dnd = 0
@@ -2425,7 +2435,7 @@ def run_C10(tier, rng, stats):
         if not ok:
             v = {'kind': 'function-value', 'cases': [list(c)], 'observed': x, 'expected': '%.30g' % r,
                  'why': '%s%s in eval_decimal: got %s, 70-digit reference %s' % (f, tuple(str(t) for t in a), vlib.strip_ticks(x), str(r)[:40]),
-                 'tags': {'fn': f, 'ev': 'decimal', 'arg': float(a[0]), 'dist1': float(abs(a[0] - one)), 'ref_mag': float(abs(r)), 'err': got is None}}
+                 'tags': {'fn': f, 'ev': 'decimal', 'arg': float(a[0]), 'arg2': (float(a[1]) if len(a) > 1 else None), 'dist1': float(abs(a[0] - one)), 'ref_mag': float(abs(r)), 'err': got is None}}
             if not match_known('C10', v, KF):
                 dnd += 1
             res['violations'].insert(0, v)
